@@ -167,6 +167,14 @@ func run(c *lib.Ctx) error {
 				if k == 0 {
 					cfg = lib.TLCfg{Snr: -1, Tsbd: -1, Mode: modes[(ai+ri)%3]}
 				}
+				if k == 1 {
+					// every representation (also the ones with a timescale of their own: text, other video rates)
+					// with a non-zero start time and $Time$ addressing
+					cfg = lib.TLCfg{StartS: []int64{30, 1600000000}[(ai+ri)%2], Snr: -1, Tsbd: -1, Mode: "tlt"}
+				}
+				if k == 2 {
+					cfg = lib.TLCfg{StartS: []int64{1600000000, 30}[(ai+ri)%2], Snr: []int64{-1, 7}[ri%2], Tsbd: 60, Mode: "number"}
+				}
 				if r.Kind == "image" {
 					cfg.Mode = "number"
 				}
